@@ -6,6 +6,19 @@ from typing import Dict, Iterable, List, Optional, Tuple
 from .terms import NEG, FLIP, Term, const, is_const, mentions, subterms, unview, show
 
 
+def _elts(c3, with_dict=False):
+    """elements of a small literal container term, or of a folded constant container (a named tuple of values): as terms"""
+    if not isinstance(c3, tuple) or not c3:
+        return None
+    if c3[0] in ("tuple", "list", "set") and 0 < len(c3[1]) <= 8:
+        return list(c3[1])
+    if with_dict and c3[0] == "dict" and 0 < len(c3[1]) <= 8:
+        return [k for k, _v in c3[1]]
+    if c3[0] == "const" and isinstance(c3[1], (tuple, list, frozenset)) and 0 < len(c3[1]) <= 8 and all(isinstance(v, (int, str, bytes)) for v in c3[1]):
+        return [("const", v) for v in (sorted(c3[1], key=repr) if isinstance(c3[1], frozenset) else c3[1])]
+    return None
+
+
 def atoms(pc) -> List[Term]:
     """Definite positive atoms implied by a path condition (conjunction of (term, truth) pairs).
 
@@ -25,10 +38,9 @@ def atoms(pc) -> List[Term]:
         elif k == "bool" and c[1] == "or" and not truth:
             for x in c[2]:
                 add(x, False)
-        elif k == "cmp" and c[1] in ("in", "not in") and (c[1] == "not in") == truth and isinstance(c[3], tuple) and c[3][0] in ("tuple", "list", "set") \
-                and 0 < len(c[3][1]) <= 8:
+        elif k == "cmp" and c[1] in ("in", "not in") and (c[1] == "not in") == truth and _elts(c[3]) is not None:
             # x not in (a, b)  ==  x != a and x != b
-            for y in c[3][1]:
+            for y in _elts(c[3]):
                 out.append(("cmp", "!=", c[2], y))
         elif k == "cmp" and c[1] in ("is", "is not", "==", "!=") and ("const", None) in (c[2], c[3]) and strip(c[3] if c[2] == ("const", None) else c[2])[0] == "ite":
             # None test of a gated value: definite when only one way through the gates is left
@@ -320,6 +332,20 @@ def _neg_atom(a: Term) -> Term:
     return ("un", "not", a)
 
 
+def _val_norm(t):
+    if not isinstance(t, tuple):
+        return t
+    if t and t[0] == "enum":
+        return ("const", t[3])
+    return tuple(_val_norm(x) for x in t)
+
+
+def _distinct_consts(a, b) -> bool:
+    a, b = _val_norm(a), _val_norm(b)
+    return isinstance(a, tuple) and isinstance(b, tuple) and a[:1] == ("const",) and b[:1] == ("const",) and type(a[1]) in (int, str, bytes) \
+        and type(b[1]) in (int, str, bytes) and a[1] != b[1]
+
+
 def cases(pc, cap: int = 256) -> List[List[Term]]:
     """The path condition as a list of cases (each a list of definite positive atoms): the product of the alternatives of every
     conjunct, contradictory cases removed.  A path condition without disjunctions / gated tests has exactly one case."""
@@ -332,8 +358,12 @@ def cases(pc, cap: int = 256) -> List[List[Term]]:
                 case = list(base)
                 ok = True
                 for a in alt:
-                    if _neg_atom(a) in case:
-                        ok = False
+                    if _neg_atom(a) in case or _val_norm(_neg_atom(a)) in [_val_norm(x) for x in case]:
+                        ok = False          # (an enum member and its value are the same thing to compare with)
+                        break
+                    if a[0] == "cmp" and a[1] == "==" and any(x[0] == "cmp" and x[1] == "==" and _val_norm(x[2]) == _val_norm(a[2]) and _distinct_consts(x[3], a[3])
+                                                              for x in case):
+                        ok = False          # x == 1 and x == 3
                         break
                     if a not in case:
                         case.append(a)
@@ -395,9 +425,9 @@ def alternatives(c: Term, truth: bool) -> List[List[Term]]:
         want = truth if c[1] in ("is", "==") else not truth
         if strip(x)[0] == "ite" or strip(x) == ("const", None) or nonnull(strip(x)):
             return _none_cases(strip(x), want)
-    if c[0] == "cmp" and c[1] in ("in", "not in") and isinstance(c[3], tuple) and c[3][0] in ("tuple", "list", "set", "dict") and 0 < len(c[3][1]) <= 8:
+    if c[0] == "cmp" and c[1] in ("in", "not in") and _elts(c[3], True) is not None:
         # membership in a literal container (for a dict: among its keys): x == a or x == b / x != a and x != b
-        elts = [k for k, _v in c[3][1]] if c[3][0] == "dict" else list(c[3][1])
+        elts = _elts(c[3], True)
         if (c[1] == "in") == truth:
             return [[("cmp", "==", c[2], y)] for y in elts]
         return [[("cmp", "!=", c[2], y) for y in elts]]
